@@ -2,6 +2,7 @@ import Crusta.Model.Readers
 import Crusta.Proofs.RoundTrip
 import Crusta.Proofs.ReaderWF
 import Crusta.Proofs.ReaderWFApx
+import Crusta.Proofs.LinesNoLf
 
 /-!
 # C13 — instance readers are total and faithful (property theorems)
@@ -194,5 +195,33 @@ labels, attacks between declared arguments only, and no attack twice -/
 theorem apx_accepted_is_wellformed (bs : List UInt8) (fw : ApxFw) (h : readApx bs = .ok fw) :
     fw.labels.Nodup ∧ (∀ p ∈ fw.atts, p.1 < fw.labels.length ∧ p.2 < fw.labels.length) ∧ fw.atts.Nodup :=
   readApx_wfa bs fw h
+
+/-- **the reader model's scanners are the regular expressions of the source.**  `Gen.argLineName`,
+`Gen.attLineNames` (and the loose `Gen.argLine`, `Gen.attLine`) are regenerated from
+`src/io/aspartix_reader.rs` on every run; for every byte string and every line the reader is given
+(no line contains a line feed: `lines_no_lf`), the scanner `matchArg` succeeds exactly when the
+strict argument pattern matches, and returns the captured group, trimmed as `captured_arg` does —
+the capture being unique, so that the regex engine's leftmost-first rule has nothing to choose —,
+and likewise for `matchAtt`; the strict patterns are included in the loose ones and the argument and
+attack patterns exclude each other, so the order in which the Rust code tries them is immaterial.
+What remains trusted is that the `regex` crate implements this textbook semantics. -/
+theorem apx_scanners_are_the_source_patterns (bs : List UInt8) (l : Str) (hl : some l ∈ lines bs) :
+    (∀ lab, matchArg l = some lab ↔ ∃ g, Rx.MatchesG Gen.argLineName l [g] ∧ lab = trimWs g) ∧
+    (∀ a b, matchAtt l = some (a, b) ↔
+      ∃ g1 g2, Rx.MatchesG Gen.attLineNames l [g1, g2] ∧ a = trimWs g1 ∧ b = trimWs g2) ∧
+    (∀ g g', Rx.MatchesG Gen.argLineName l [g] → Rx.MatchesG Gen.argLineName l [g'] → g = g') ∧
+    (∀ g1 g2 g1' g2', Rx.MatchesG Gen.attLineNames l [g1, g2] → Rx.MatchesG Gen.attLineNames l [g1', g2'] →
+      g1 = g1' ∧ g2 = g2') ∧
+    (Rx.Matches Gen.argLineName l → Rx.Matches Gen.argLine l) ∧
+    (Rx.Matches Gen.attLineNames l → Rx.Matches Gen.attLine l) ∧
+    ¬ (Rx.Matches Gen.argLine l ∧ Rx.Matches Gen.attLine l) :=
+  ⟨fun lab => RxApx.reader_matchArg_iff bs l hl lab, fun a b => RxApx.reader_matchAtt_iff bs l hl a b,
+   fun g g' h h' => RxApx.argLineName_capture_unique l g g' h h',
+   fun g1 g2 g1' g2' h h' => RxApx.attLineNames_capture_unique l g1 g2 g1' g2' h h',
+   RxApx.strict_sub_loose_arg l, RxApx.strict_sub_loose_att l, RxApx.arg_att_exclusive l⟩
+
+/-- no line handed to the readers contains a line feed, for any input bytes -/
+theorem lines_have_no_line_feed (bs : List UInt8) : ∀ l, some l ∈ lines bs → ∀ c ∈ l, c ≠ 10 :=
+  lines_no_lf bs
 
 end Crusta.C13
